@@ -50,7 +50,7 @@ func (w *walker) walk(v reflect.Value, depth int) {
 			return
 		}
 		w.seen[p] = len(w.seen)
-		if t.Elem().PkgPath() == "math/rand" || strings.HasPrefix(t.Elem().PkgPath(), "verif/") {
+		if t.Elem().PkgPath() == "math/rand" || strings.HasPrefix(t.Elem().PkgPath(), "verif/") || strings.HasSuffix(t.Elem().PkgPath(), "/zz_verif/vsync") {
 			w.str("opaque")
 			return
 		}
@@ -63,7 +63,7 @@ func (w *walker) walk(v reflect.Value, depth int) {
 		w.str(v.Elem().Type().String())
 		w.walk(v.Elem(), depth+1)
 	case reflect.Struct:
-		if t.PkgPath() == "math/rand" || t.PkgPath() == "sync" || t.PkgPath() == "sync/atomic" || strings.HasPrefix(t.PkgPath(), "verif/") {
+		if t.PkgPath() == "math/rand" || t.PkgPath() == "sync" || t.PkgPath() == "sync/atomic" || strings.HasPrefix(t.PkgPath(), "verif/") || strings.HasSuffix(t.PkgPath(), "/zz_verif/vsync") {
 			// random sources, synchronisation primitives and the verification engine's own objects
 			// (scheduler, in-memory files) are not state of the code under test
 			w.str("opaque:" + t.String())
@@ -95,22 +95,24 @@ func (w *walker) walk(v reflect.Value, depth int) {
 			w.str("nilmap")
 			return
 		}
+		// entries are visited in the order of their key hashes, with the one walker: the ids handed to
+		// pointers (for back references) must not depend on Go's random map iteration order
 		type kv struct {
 			k uint64
-			v uint64
+			v reflect.Value
 		}
 		var ents []kv
 		it := v.MapRange()
 		for it.Next() {
-			a := &walker{h: fnv.New64a(), seen: w.seen}
+			a := &walker{h: fnv.New64a(), seen: map[uintptr]int{}}
 			a.walk(it.Key(), depth+1)
-			b := &walker{h: fnv.New64a(), seen: w.seen}
-			b.walk(it.Value(), depth+1)
-			ents = append(ents, kv{a.h.Sum64(), b.h.Sum64()})
+			ents = append(ents, kv{a.h.Sum64(), it.Value()})
 		}
-		sort.Slice(ents, func(i, j int) bool { return ents[i].k < ents[j].k || (ents[i].k == ents[j].k && ents[i].v < ents[j].v) })
+		sort.Slice(ents, func(i, j int) bool { return ents[i].k < ents[j].k })
 		for _, e := range ents {
-			fmt.Fprintf(w.h, "%x=%x|", e.k, e.v)
+			fmt.Fprintf(w.h, "%x=", e.k)
+			w.walk(e.v, depth+1)
+			w.str("|")
 		}
 	case reflect.String:
 		w.str(v.String())
